@@ -171,7 +171,11 @@ fn compute_one_level(
         for u in &shuffled_nodes {
             let mut best_mod = 0.0;
             let mut best_com: usize = *node2com.get(u).unwrap();
-            let weights2com = get_neighbor_weights(graph, u, nbrs, &node2com);
+            let mut weights2com = get_neighbor_weights(graph, u, nbrs, &node2com);
+            if graph.specs.directed {
+                // a directed node is tied to a community by its in-edges as well as its out-edges
+                add_predecessor_weights(graph, u, &node2com, &mut weights2com);
+            }
             subtract_degree_from_best_com(best_com, u, &mut deg_info, graph.specs.directed);
             #[rustfmt::skip]
             update_best_com(&mut best_com, &mut best_mod, weights2com, &deg_info, m, resolution, graph.specs.directed);
@@ -467,6 +471,26 @@ where
 /// Creates the initial mapping of node names in the `graph` to
 /// a vector where each item contains a HashSet that contains a single
 /// node name.
+fn add_predecessor_weights<T, A>(
+    graph: &Graph<T, A>,
+    u: &T,
+    node2com: &HashMap<T, usize>,
+    weights2com: &mut HashMap<usize, f64>,
+) where
+    T: Hash + Eq + Clone + Ord + Display + Send + Sync,
+    A: Clone + Send + Sync,
+{
+    if let Some(preds) = graph.get_predecessors_map().get(u) {
+        for v in preds {
+            if u == v {
+                continue;
+            }
+            let edge = graph.get_edge(v.clone(), u.clone()).unwrap();
+            *weights2com.entry(*node2com.get(v).unwrap()).or_insert(0.0) += edge.weight;
+        }
+    }
+}
+
 fn map_node_names_to_hashsets(graph: &Graph<usize, HashSet<usize>>) -> Vec<HashSet<usize>> {
     graph
         .get_all_nodes()
